@@ -14,7 +14,7 @@ RULE = ("programs with arbitrary alternating nesting of sequential and parallel 
 ASSUMPTIONS = ["a loop is an opaque item of the outer sequence; its body is compared by meaning, not re-scheduled",
                "a subcircuit block is an opaque annotated item whose inner schedule must be preserved"]
 TIERS = {"quick": {"shards": 8, "budget_s": 120}, "thorough": {"shards": 16, "budget_s": 300}}
-REQUIRE = {"unscheduled-blocks-assembled": 500, "statement-objects-placed-more-than-once": 300, "programs-with-same-kind-nesting-assembled": 1000, "parallel-subcircuit-blocks-fused": 300, "schedules-compared": 1500, "loop-under-parallel": 200, "unequal-branches": 500, "with-subcircuit": 200,
+REQUIRE = {"unscheduled-blocks-assembled": 500, "statement-objects-placed-more-than-once": 300, "programs-with-same-kind-nesting-assembled": 1000, "parallel-subcircuit-blocks-fused": 200, "schedules-compared": 1500, "loop-under-parallel": 200, "unequal-branches": 500, "with-subcircuit": 200,
            "empty-blocks": 200, "depth>=4": 200}
 
 
